@@ -46,6 +46,8 @@ def run(ctx: Ctx):
     r20_2(ctx, R)
     r20_3(ctx, R)
     r20_4(ctx, R)
+    from ..util import persistent_state
+    persistent_state(ctx, "R20.5", [f_ for f_ in (ctx.repo.func(q_, required=False) for q_ in ('auto_map', 'sort_molecules', 'classify_files', '_cli.main')) if f_ is not None], "a command-line run")
 
 
 def _is_set_type(t) -> Optional[bool]:
@@ -342,6 +344,57 @@ def r20_3(ctx: Ctx, R: Resolver):
     # classification by extension
     cf = ctx.func("_cli.classify_files")
     pmc = parents_map(cf.node)
+    # the candidate sets hold the names exactly as they were given: the explicit files are taken out of them by comparing
+    # names, so a name rewritten on its way into the set (normpath, abspath, lower ...) is no longer found unless the
+    # removal rewrites the explicit names the same way
+    files_p = cf.params[0] if cf.params else "files"
+    for lp_ in [n for n in walk_no_nested(cf.node) if isinstance(n, ast.For) and isinstance(n.target, ast.Name)]:
+        adds_ = [c for c in calls_in(lp_) if call_name(c) == "add" and c.args]
+        if not adds_:
+            continue
+        v_ = lp_.target.id
+        rebinds = [s_ for s_ in walk_no_nested(lp_) if isinstance(s_, ast.Assign) and any(isinstance(t_, ast.Name) and t_.id == v_ for t_ in s_.targets)]
+        for c in adds_:
+            a_ = c.args[0]
+            if isinstance(a_, ast.Name) and a_.id == v_ and not rebinds:
+                ctx.ob("R20.3", cf, "%s (candidate stored as given)" % norm(c), True,
+                       "a candidate file enters the set under the name it was given on the command line", node=c)
+                continue
+            how = norm(rebinds[0].value) if rebinds else norm(a_)
+            fn_ = None
+            src_ = rebinds[0].value if rebinds else a_
+            if isinstance(src_, ast.Call) and len(src_.args) == 1 and isinstance(src_.args[0], ast.Name) and src_.args[0].id == v_:
+                fn_ = norm(src_.func)
+            same = fn_ is not None and rem_loops and all(
+                isinstance(r_.args[0], ast.Call) and norm(r_.args[0].func) == fn_
+                for l_ in rem_loops for r_ in calls_in(l_) if call_name(r_) in ("remove", "discard") and r_.args)
+            second_defence = None
+            if fn_ is not None and not same:
+                # the other defence: a species whose molecules are already claimed is refused by System.add_molecule_top
+                # (the run search raises), which the scan catches and skips.  It stands iff every normal exit of
+                # add_molecule_top has gone through the run search.
+                amt = ctx.repo.func("System.add_molecule_top", required=False)
+                if amt is not None:
+                    second_defence = True
+                    for p_ in enum_paths(amt.node.body):
+                        if p_.end in ("return", "fall") and not any(
+                                isinstance(x_, ast.Call) and call_name(x_) == "_check_index_in_available_mgro" for s_ in p_.stmts() for x_ in ast.walk(s_)):
+                            second_defence = False
+            if fn_ is not None and not same and second_defence:
+                ctx.ob("R20.3", cf, c, True, "candidates are stored as `%s` while explicit names are removed as typed; the explicit species "
+                       "is still refused when scanned again because its molecules are already claimed (System.add_molecule_top raises on "
+                       "every such path)" % how, node=c)
+            elif fn_ is not None and not same:
+                ctx.ob("R20.3", cf, c, False,
+                       "candidate names and explicit names are compared as typed -- the candidate is stored as `%s` but the explicit "
+                       "files are removed under the names the user typed: `./x.itp` given explicitly is not found in the set, is "
+                       "scanned again and - since System.add_molecule_top has a normal exit that skips the run search - the species is "
+                       "added a second time" % how, node=c)
+            elif fn_ is not None:
+                ctx.ob("R20.3", cf, c, True, "candidates and explicit names are rewritten by the same function (`%s`)" % fn_, node=c)
+            else:
+                ctx.ob("R20.3", cf, c, True, "what is stored in the candidate set is not the name as given nor a recognised rewriting of "
+                       "it; not decided on this tree", undecided=True, node=c)
     for c in calls_in(cf.node):
         if call_name(c) == "add" and c.args:
             which = norm(c.func.value)
@@ -479,7 +532,27 @@ def r20_3(ctx: Ctx, R: Resolver):
                "and false", node=loops[0] if loops else main.node, appending_paths=npaths)
     else:
         # every appending path evaluated an exclusion test, but the test is not spelled `args.exclude is not None and name in
-        # args.exclude`: its exact meaning is not decided here
+        # args.exclude`: its exact meaning is not decided here - except when the container the name is looked up in is
+        # a STRING on every definition (then `in` is a substring test: excluding WF also drops W)
+        str_in = None
+        for t_ in [n_ for n_ in ast.walk(loops[0]) if isinstance(n_, ast.Compare) and len(n_.ops) == 1 and isinstance(n_.ops[0], (ast.In, ast.NotIn))
+                   and norm(n_.left) == loopv and isinstance(n_.comparators[0], ast.Name)]:
+            cont = t_.comparators[0].id
+            defs_ = [s_.value for s_ in walk_no_nested(main.node) if isinstance(s_, ast.Assign) and any(norm(x_) == cont for x_ in s_.targets)]
+
+            def _is_str(e_):
+                return (isinstance(e_, ast.Constant) and isinstance(e_.value, str)) or isinstance(e_, ast.JoinedStr) or \
+                    (isinstance(e_, ast.Call) and isinstance(e_.func, ast.Attribute) and e_.func.attr in ("join", "format", "strip", "lower", "upper", "replace")
+                     and (e_.func.attr != "join" or (isinstance(e_.func.value, ast.Constant) and isinstance(e_.func.value.value, str)))) or \
+                    (isinstance(e_, ast.Call) and isinstance(e_.func, ast.Name) and e_.func.id == "str")
+            if defs_ and all(_is_str(d_) for d_ in defs_):
+                str_in = (t_, cont, defs_)
+        if str_in is not None:
+            ctx.ob("R20.3", main, str_in[0], False,
+                   "exactly the excluded species are left out -- `%s` looks the name up in `%s`, which is a string on every path "
+                   "(%s): that is a substring test, so excluding a species also drops every species whose name is contained in it"
+                   % (norm(str_in[0]), str_in[1], "; ".join(norm(d_)[:40] for d_ in str_in[2])), node=str_in[0])
+            return
         ctx.ob("R20.3", main, loops[0], True, "the exclusion test is evaluated on every path that lists a discovered species, but it is "
                "not in the recognised spelling; not decided on this tree", undecided=True, node=loops[0])
 
